@@ -69,6 +69,7 @@ func newTaintConfig(p *Program) *taintConfig {
 
 func checkC01(c *Ctx) {
 	p := c.P
+	checkC01NamedDispatch(c)
 	p.SSA()
 	tc := newTaintConfig(p)
 	tc.computeSummaries()
